@@ -739,7 +739,7 @@ func (c *FnCtx) allocate(st *State, nbytes string) string {
 	c.facts = append(c.facts, and(app(">", a, "0"), app(">=", a, st.alloc)))
 	na := c.fresh("alloc")
 	c.declConst(na, "Int")
-	c.facts = append(c.facts, eq(na, app("+", a, nbytes, "1")))
+	c.facts = append(c.facts, eq(na, app("+", a, nbytes, "1")), app("<", na, "281474976710656"))
 	st.alloc = na
 	return a
 }
@@ -889,7 +889,7 @@ func (c *FnCtx) havocAll(st *State) {
 	st.heap = map[string]string{}
 	na := c.fresh("alloc")
 	c.declConst(na, "Int")
-	c.facts = append(c.facts, app(">=", na, st.alloc))
+	c.facts = append(c.facts, app(">=", na, st.alloc), app("<", na, "281474976710656"))
 	st.alloc = na
 }
 
